@@ -27,7 +27,7 @@ CFG = {
 }
 
 MANIFEST = {
-    "text": ("Theorem validate_iff_rules: the transcription of FontInfo::validate (date slicing as partial byte-offset operations on characters "
+    "text": ("The rule constants (list limits, pairs set, date length / separators / field ranges, selection bits, class bounds, angle range, WOFF emptiness tests) are re-extracted from src/fontinfo.rs on every run and tied to the model's literals and to an independent rule table by decide-theorems (source_*). Theorem validate_iff_rules: the transcription of FontInfo::validate (date slicing as partial byte-offset operations on characters "
              "with UTF-8 sizes, gasp loop, identifier set loop, bit/class/list/WOFF checks, in source order) returns ok for ANY font info exactly "
              "when the independent per-rule specification holds; it never reaches a slicing panic; a loaded or saved info satisfies the rules; the "
              "three entry points agree on every value that can reach all three. The model is tied to the code by exhaustive per-rule boundary "
